@@ -2,6 +2,7 @@ package shimagent
 
 //vsym:pkg github.com/theparanoids/ysshra/agent/shimagent
 //vsym:include shim/world.go
+//vsym:include shim/peek.go || shim/peek_bb.go
 //vsym:include C11/h11.go
 //vsym:entry H08_lock_state_under_concurrency
 //vsym:replay adapter ../C11/h11_replay_test.go race
